@@ -461,6 +461,25 @@ def case_term(case, res, with_rec=True):
                                             rec_term(res.get('rec')) if with_rec else 'None')
 
 
+def geom_term(res, max_numbers=250):
+    """(geom, recorded getbounds results) for the exact-rational walk model, or None when the grid is too large to ship"""
+    rec = res.get('rec') or {}
+    if not rec.get('gbargs') or rec.get('bounds') is None or len(rec['gbargs']) != len(rec['bounds']):
+        return None
+    if len(rec['decBounds']) + sum(len(rb) for rb in rec['raBounds']) > max_numbers:
+        return None
+    decB = C.coq_list([qt(x) for x in rec['decBounds']])
+    raB = C.coq_list([C.coq_list([qt(x) for x in rb]) for rb in rec['raBounds']])
+    pts = C.coq_list(['(%s, %s, %s)' % (qt(a[0]), qt(a[1]), qt(a[3])) for a in rec['gbargs']])
+    bs = []
+    for b in rec['bounds']:
+        if b is None:
+            bs.append('None')
+        else:
+            bs.append('(Some (%s, %s))' % (C.zlit(b[0]), C.coq_list(['(%s, %s)' % (C.zlit(lo), C.zlit(hi)) for lo, hi in b[1]])))
+    return '(mkgeom %s %s %s %s, %s)' % (decB, raB, qt(rec['gbargs'][0][2]), pts, C.coq_list(bs))
+
+
 # --------------------------------------------------------------------------- diagnosis (uncertified; for messages and signatures only)
 
 def diagnose(case, res):
@@ -626,6 +645,32 @@ def correspond(ctx, proof_ok=True):
         'largest_case_chars': max(size) if size else 0,
         'samples': [dict(cases[n], impl={k: v for k, v in results[n].items() if k not in ('sep', 'rec')}) for n in idx[:3]],
     })
+    # the exact-rational model of the getbounds walks (theorems C04_dec_coverage / C04_ra_coverage / C04_get_in_bounds are about
+    # it) against the recorded getbounds results; the model computes in Q what the code computes in doubles
+    gterms, gidx = [], []
+    for n in idx:
+        t = geom_term(results[n])
+        if t is not None:
+            gterms.append(t)
+            gidx.append(n)
+    gcc = C.CoqCases(ctx.work, HEADER, 'run_geoms', shard=max(4, len(gterms) // (2 * C.NPROC) + 1))
+    gdis = gcc.run(gterms, tag='geom') if gterms else []
+    npts = sum(len(results[n]['rec']['bounds']) for n in gidx)
+    ctx.coverage['getbounds_walk_model'] = {
+        'cases': len(gterms), 'getbounds_calls_compared': npts, 'disagreements': int(sum(gdis)),
+        'rule': 'getbounds_model (cell_index, dec_down/dec_up, ra_down/ra_up on exact rationals of the recorded bounds, point and raMargin) '
+                'must return the recorded (decChunkMin, raChunkMin[], raChunkMax[]) or None where getbounds raised; cases with more than '
+                '250 bound values are not shipped'}
+    for n, d in zip(gidx, gdis):
+        if d:
+            ctx.violation('C04:model-mismatch:getbounds-walk',
+                          'the exact-rational model of the getbounds walks differs from the recorded getbounds results on %d of %d list-2 '
+                          'points (family %s)' % (d, len(results[n]['rec']['bounds']), cases[n]['fam']),
+                          {'kind': 'broken-correspondence', 'item': 'C04.Model.getbounds_model (dec_down/dec_up/ra_down/ra_up/cell_index)',
+                           'call': cases[n], 'recorded_bounds': results[n]['rec']['bounds'], 'gbargs': results[n]['rec']['gbargs'],
+                           'note': 'either the source of getbounds changed, or a double-precision evaluation landed on the other side of a '
+                                   'comparison than the exact one'}, False)
+            break
     seen = set()
     for n, v in zip(idx, verdicts):
         if v == 0:
